@@ -46,10 +46,10 @@ type c12Op struct {
 }
 
 type c12Case struct {
-	Sched   string  `json:"sched"`
-	InitWnd int32   `json:"init_wnd"` // initial stream send window
-	ConnWnd int32   `json:"conn_wnd"`
-	MFS     int32   `json:"mfs"`
+	Sched   string `json:"sched"`
+	InitWnd int32  `json:"init_wnd"` // initial stream send window
+	ConnWnd int32  `json:"conn_wnd"`
+	MFS     int32  `json:"mfs"`
 	// DrainCtl > 0: during the final drain, DrainCtl control frames (PING acks) are
 	// pushed before every Pop that is expected to deliver a stream frame, as a server
 	// answering PINGs / sending WINDOW_UPDATEs while it writes responses does.
@@ -129,10 +129,10 @@ type c12World struct {
 
 	// mirror of the RFC 7540 scheduler's idle-node retention list (ids), used only for
 	// the class counters "open of a retained idle node" / "idle node evicted"
-	maxIdle        int
-	maxSeenID      uint32
-	idleList       []uint32
-	keepMFS        bool // drain with the current max frame size (C13: many pieces)
+	maxIdle   int
+	maxSeenID uint32
+	idleList  []uint32
+	keepMFS   bool // drain with the current max frame size (C13: many pieces)
 
 	closedQueued   bool // some stream was closed with frames queued
 	poppedAfterCQ  bool
